@@ -436,6 +436,7 @@ type agg struct {
 	findings                                          []proto.Finding
 	workerWall                                        float64
 	yieldPoints                                       int
+	detNote                                           string
 }
 
 func newAgg() *agg {
@@ -495,6 +496,21 @@ func cmdCheck(id, tier string, seed uint64) int {
 	}
 	trouble := ""
 	var buildS float64
+	detNote := ""
+	if tier == "thorough" && pc.Engine == "startsim" {
+		// determinism first: the same runs in separate processes under GOMAXPROCS 1/4/16
+		progs := genBatch(pc, seed, 1<<20, 24, "quick")
+		bad, procs, runs, tr := determinismRun(progs, pc.ID, seed, 9, 4)
+		if tr != "" {
+			fmt.Println(tr)
+			die(2, "determinism self-test could not run (not a verdict)")
+		}
+		if bad != 0 {
+			die(2, "determinism self-test failed: %d of %d processes diverged (not a verdict)", bad, procs)
+		}
+		detNote = fmt.Sprintf("%d processes x %d runs bit-identical under GOMAXPROCS 1/4/16", procs, runs)
+		fmt.Println("determinism: " + detNote)
+	}
 	batches := 0
 	seedsUsed := []uint64{}
 	type phase struct {
@@ -625,6 +641,7 @@ batches:
 		}
 	}
 	a.yieldPoints = yieldPoints
+	a.detNote = detNote
 	// report findings
 	known := loadKnown()
 	os.MkdirAll(filepath.Join(verifDir, "replays"), 0o755)
